@@ -434,6 +434,13 @@ def task_pipeline(pr, repo):
     pr.explore(ex, thunk, MC + '.calculate_pka')
 
 
+def task_model_records(pr, repo, tag):
+    # conformation naming: the model serial of a MODEL record is the number after the tag - in the standard layout (columns 11-14)
+    # and in the compact / left-justified / five-digit layouts tools write ("identical models change nothing" needs every model read)
+    reader.explore_steps(pr, repo, reader.check_transition, tags=[tag], chains_cases=(None,), keep_protons_cases=(False,),
+                         what='C08 MODEL record step')
+
+
 def run(pr, repo):
     pr.level = 'other'
     pr.explanation = ('deductive core (VC on average_of_conformations, top-up, pipeline, reader steps) plus bounded monitor; level "other" '
@@ -441,7 +448,7 @@ def run(pr, repo):
                       'alternative states the averaged table of a single-conformation input names the group itself where the '
                       'conformation\'s table names the partner) - reported as KNOWN-FINDING by the monitor on every run')
     pr.parallel([(task_average, (3,)), (task_average, (2,)), (task_average_twins, ()), (task_average_partner_twins, ()), (task_topup, ()), (task_topup_conformations, ()), (task_sorter, ()),
-                 (C14.task_make_copy, ()), (reader.task_nterm, ()), (task_proton_registration, ()), (task_pipeline, ())])   # every alternate location of a chain start is tagged N+
+                 (C14.task_make_copy, ()), (reader.task_nterm, ()), (task_proton_registration, ()), (task_pipeline, ())] + [(task_model_records, (t,)) for t in ['MODEL '] + sorted(reader.MODEL_SHORT)])   # every alternate location of a chain start is tagged N+
     pr.assumptions += ['AV: two group identities over 2 and 3 conformations, one determinant per type and conformation '
                        '(values symbolic); more groups behave independently (find_group matches by atom label and type)',
                        'residue identity = atom label (name, number, chain) as in the code: insertion codes are not part of it '
